@@ -1227,7 +1227,18 @@ class MSeq:
         if not self.mutable:
             raise TypeError("'bytes' object does not support item assignment")
         if not isinstance(i, slice):
-            raise Unsupported('MSeq element store')
+            n = self.n
+            if Or(i < -n, i >= n):
+                raise IndexError('bytearray index out of range')
+            i = Ite(i < 0, i + n, i)
+            if isinstance(v, SInt) or isinstance(v, int):
+                if Or(v < 0, v > 255):
+                    raise ValueError('byte must be in range(0, 256)')
+            ie0 = iexpr(i)
+            ve = iexpr(v)
+            old = self.f
+            self.f = lambda ie, old=old: z3.If(ie == ie0, ve, old(ie))
+            return
         if i.step not in (None, 1):
             raise Unsupported('MSeq extended slice store')
         a = self._clamp(i.start, 0)
